@@ -115,7 +115,15 @@ def run(ctx):
                                            Payload=zt.Payload(payload))
             got.clear()
             try:
-                app.on_apsde_indication(ind)
+                # as it arrives from the NCP: through its wire bytes (what the typed fields do while parsing is part of
+                # the path from the radio to the stack)
+                arrived = ind
+                if r.random() < 0.8:
+                    try:
+                        arrived = c.APS.DataIndication.Ind.from_frame(ind.to_frame())
+                    except Exception:
+                        arrived = ind
+                app.on_apsde_indication(arrived)
                 pk, err = (got[0] if got else None), None
             except Exception as ex:  # noqa
                 pk, err = None, type(ex).__name__
